@@ -54,24 +54,21 @@ ref_parse (unsigned char const *t, unsigned len, i128 &val, int &radix)
 static inline bool alnum_ (unsigned char c)
 { return c == '_' || (c >= 'a' && c <= 'z') || (c >= 'A' && c <= 'Z') || (c >= '0' && c <= '9'); }
 
+// `neg' and `len' are concrete per harness (control stays concrete, DESIGN 0.2); bytes are symbolic
 static inline void
-check_token (unsigned char *tok, unsigned len)
+check_token (unsigned char *tok, unsigned len, bool neg)
 {
   // what the lexer's INT rule admits: "-"? [0-9] [_a-zA-Z0-9]*
-  unsigned i = 0;
-  if (tok[0] == '-') i = 1;
-  vp_assume (i < len && tok[i] >= '0' && tok[i] <= '9');
+  unsigned i = neg ? 1 : 0;
+  vp_assume (tok[i] >= '0' && tok[i] <= '9');
   for (unsigned j = i + 1; j < len; ++j)
     vp_assume (alnum_ (tok[j]));
   tok[len] = 0;       // the lexer hands over NUL-terminated yytext
 #ifdef VP_KF_int_reprefix
   // known finding int_reprefix: a second "0x"/"0X" after the hexadecimal prefix is accepted
   // by strtoull (0x0x5 reads as 5)
-  {
-    unsigned k = i;
-    if (len - k > 4 && tok[k] == '0' && (tok[k + 1] == 'x' || tok[k + 1] == 'X'))
-      vp_assume (!(tok[k + 2] == '0' && (tok[k + 3] == 'x' || tok[k + 3] == 'X')));
-  }
+  if (len - i > 4 && tok[i] == '0' && (tok[i + 1] == 'x' || tok[i + 1] == 'X'))
+    vp_assume (!(tok[i + 2] == '0' && (tok[i + 3] == 'x' || tok[i + 3] == 'X')));
 #endif
   i128 want = 0;
   int radix = 10;
@@ -104,49 +101,71 @@ check_token (unsigned char *tok, unsigned len)
     }
 }
 
-// all tokens of exactly LEN characters (LEN = 1..VP_LEN are separate harnesses)
-template <unsigned LEN> static inline void
+// Tokens of LEN characters after the optional sign.  The first two characters decide parse_int's
+// control flow (prefix detection), so they are scenario digits: first character '0'..'9', second
+// character one representative of every class the code or strtoull distinguishes; the remaining
+// characters are symbolic bytes.  The scenario number is symbolic inside a chunk (DESIGN 0.2).
+static const char SECOND[] = "xXbBoO0127 89afgzAFGZ_";    // ' ' is skipped (no such token)
+#define NSECOND 22
+template <unsigned LEN, bool NEG> static inline void
+run_token (uint64_t k)
+{
+  unsigned char tok[LEN + 2];
+  unsigned n = 0;
+  if (NEG)
+    tok[n++] = '-';
+  tok[n++] = (unsigned char) ('0' + k % 10);
+  if (LEN >= 2)
+    {
+      char c = SECOND[(k / 10) % NSECOND];
+      if (c == ' ')
+        return;
+      tok[n++] = (unsigned char) c;
+    }
+  for (unsigned i = 2; i < LEN; ++i)
+    tok[n++] = vp_nondet_u8 ();
+  check_token (tok, n, NEG);
+}
+template <unsigned LEN, bool NEG> static inline void
 h_token ()
 {
-  unsigned char tok[LEN + 1];
-  for (unsigned i = 0; i < LEN; ++i)
-    tok[i] = vp_nondet_u8 ();
-  check_token (tok, LEN);
+  uint64_t N = LEN >= 2 ? 10 * NSECOND : 10;
+  uint64_t lo = vp_range_lo (), hi = vp_range_hi ();
+  if (hi > N) hi = N;
+  uint64_t scen = vp_nondet_u64 ();
+  vp_assume (scen >= lo && scen < hi);
+  for (uint64_t k = lo; k < hi; ++k)
+    if (scen == k)
+      run_token<LEN, NEG> (k);
 }
 
-// boundary literals: optional '-', then a maximal-length digit string in one radix whose last two
-// characters are symbolic (values around 2^63 and 2^64)
-template <int RADIX> static inline void
+// boundary literals: a maximal-length digit string in one radix (2^64-1 or 2^63) whose last two
+// characters are symbolic, optionally one character longer
+template <int RADIX, bool NEG, bool USE63, bool EXTRA> static inline void
 h_boundary ()
 {
-  // 2^64-1: hex ffffffffffffffff (16), dec 18446744073709551615 (20), oct 1777777777777777777777 (22)
-  static const char *body = RADIX == 16 ? "0xffffffffffffffff" : RADIX == 10 ? "18446744073709551615" : "01777777777777777777777";
-  static const char *body63 = RADIX == 16 ? "0x8000000000000000" : RADIX == 10 ? "9223372036854775808" : "01000000000000000000000";
+  const char *b = USE63 ? (RADIX == 16 ? "0x8000000000000000" : RADIX == 10 ? "9223372036854775808" : "01000000000000000000000")
+                        : (RADIX == 16 ? "0xffffffffffffffff" : RADIX == 10 ? "18446744073709551615" : "01777777777777777777777");
   unsigned char tok[32];
   unsigned n = 0;
-  bool neg = vp_nondet_bool ();
-  bool use63 = vp_nondet_bool ();
-  if (neg)
+  if (NEG)
     tok[n++] = '-';
-  const char *b = use63 ? body63 : body;
-  unsigned bl = 0;
-  while (b[bl])
-    ++bl;
-  for (unsigned i = 0; i < bl; ++i)
+  for (unsigned i = 0; b[i]; ++i)
     tok[n++] = (unsigned char) b[i];
   tok[n - 1] = vp_nondet_u8 ();
   tok[n - 2] = vp_nondet_u8 ();
-  bool extra = vp_nondet_bool ();
-  if (extra)
+  if (EXTRA)
     tok[n++] = vp_nondet_u8 ();       // one digit more: overlong
-  check_token (tok, n);
+  check_token (tok, n, NEG);
 }
 
-VP_HARNESS (c14_int_len1) { h_token<1> (); }
-VP_HARNESS (c14_int_len2) { h_token<2> (); }
-VP_HARNESS (c14_int_len3) { h_token<3> (); }
-VP_HARNESS (c14_int_len4) { h_token<4> (); }
-VP_HARNESS (c14_int_len5) { h_token<5> (); }
-VP_HARNESS (c14_int_bound16) { h_boundary<16> (); }
-VP_HARNESS (c14_int_bound10) { h_boundary<10> (); }
-VP_HARNESS (c14_int_bound8) { h_boundary<8> (); }
+#define TOK(L) VP_HARNESS (c14_int_len##L) { h_token<L, false> (); } VP_HARNESS (c14_int_neg_len##L) { h_token<L, true> (); }
+TOK (1) TOK (2) TOK (3) TOK (4)
+#define BND(R) \
+  VP_HARNESS (c14_int_bound##R##_max) { h_boundary<R, false, false, false> (); } \
+  VP_HARNESS (c14_int_bound##R##_max_long) { h_boundary<R, false, false, true> (); } \
+  VP_HARNESS (c14_int_bound##R##_negmax) { h_boundary<R, true, false, false> (); } \
+  VP_HARNESS (c14_int_bound##R##_63) { h_boundary<R, false, true, false> (); } \
+  VP_HARNESS (c14_int_bound##R##_neg63) { h_boundary<R, true, true, false> (); } \
+  VP_HARNESS (c14_int_bound##R##_neg63_long) { h_boundary<R, true, true, true> (); }
+BND (16) BND (10) BND (8)
